@@ -27,6 +27,12 @@ const hookPath = modPath + "/simhook"
 //go:embed simhook.go.txt
 var hookSrc string
 
+//go:embed simhook_race.go.txt
+var hookRaceSrc string
+
+//go:embed simhook_norace.go.txt
+var hookNoRaceSrc string
+
 // mains maps a directory holding a `package main` to the importable name it gets.
 var mains = map[string]string{"cmd/rdpgw": "gwmain"}
 
@@ -93,6 +99,12 @@ func Generate(src, dst string) (*Result, error) {
 		return nil, err
 	}
 	if err := os.WriteFile(filepath.Join(dst, "simhook", "simhook.go"), []byte(hookSrc), 0o644); err != nil {
+		return nil, err
+	}
+	if err := os.WriteFile(filepath.Join(dst, "simhook", "simhook_race.go"), []byte(hookRaceSrc), 0o644); err != nil {
+		return nil, err
+	}
+	if err := os.WriteFile(filepath.Join(dst, "simhook", "simhook_norace.go"), []byte(hookNoRaceSrc), 0o644); err != nil {
 		return nil, err
 	}
 	if err := genHelpers(dst, res.Counts); err != nil {
